@@ -266,6 +266,10 @@ def _exact_equality(test: ast.AST, polarity: bool, env: dict, le: LeafEval):
         neg = not neg
         test = test.operand
     if not (isinstance(test, ast.Compare) and len(test.ops) == 1):
+        # truthiness of a number: `not x` holds exactly when x == 0
+        v = le.ev(test, env)
+        if isinstance(v, Leaf) and (polarity == neg):
+            return v, 0
         return None
     op = test.ops[0]
     if isinstance(op, ast.Eq):
